@@ -16,7 +16,8 @@ LEVEL_TEXT = ("Tables of 4 plain columns plus every single item, every admissibl
               " Also enumerated: inline constraints introduced by CONSTRAINT <name> (REFERENCES / CHECK / PRIMARY KEY / UNIQUE) on the first, an interior and the last column, every ordered pair of table-level items with the first at every interior position (already in the quick tier), and an exactly-once oracle: constraints.references may hold the named table-level foreign keys and nothing else."
               " Wave 2: a fifth column whose name contains two other column names (matching must be by equality), SQL-Server style PRIMARY KEY [CLUSTERED] lists with mixed sort directions, and every case under a second output mode (single items under all 15)."
               ' Wave 5 / coverage review: CHECK expressions beyond comparisons (IN lists, calls, AND, BETWEEN, comparison AND IN-list), foreign keys without a referenced column list (1 and 2 referencing columns, named or not).'
-              " Defect hunt: '=' comparisons in CHECK (table-level, named, inline, followed by AND), an inline CHECK followed by NOT NULL / DEFAULT; CHECK texts are compared token-wise (blanks between tokens are free, blanks inside a word or operator are not).")
+              " Defect hunt: '=' comparisons in CHECK (table-level, named, inline, followed by AND), an inline CHECK followed by NOT NULL / DEFAULT; CHECK texts are compared token-wise (blanks between tokens are free, blanks inside a word or operator are not)."
+              " Wave 7 (scale sweeps, family S): tables of up to 40 (thorough 80) columns carrying every count 1..24 (..48) of constraints of one kind - key columns, named / unnamed UNIQUE clauses, named / unnamed FOREIGN KEYs to distinct tables, named CHECKs, inline options - or of every kind at once, placed on the LAST columns in reverse declaration order.")
 LEVEL_NOTE = ("Reference semantics are transcribed from the property statement. A foreign key may be reported per column or as a named "
               "constraints.references entry (both documented). Bounds: <=2 items quick / 3 thorough, 4 columns.")
 RULE = ("case = (ordered item tuple, position of the first item among the columns); expected keys/flags/constraints known by "
@@ -196,7 +197,7 @@ def compatible(a, b):
 
 def bounds(tier):
     return {"items_per_table": 3 if tier == "thorough" else 2, "item_alphabet": len(items()), "positions": "end + every interior position for the first item",
-            "columns": 4}
+            "columns": 4, "scale_columns": 80 if tier == "thorough" else 40, "scale_constraints_per_kind": 48 if tier == "thorough" else 24}
 
 
 def gen_cases(tier):
@@ -245,10 +246,143 @@ def gen_cases(tier):
     for n, c in enumerate(cases):
         if n % 2:
             c["mode"] = MODES[(n // 2) % len(MODES)]
-    return cases + extra
+    sc = scale_cases(tier == "thorough")
+    for n, c in enumerate(sc):
+        if n % 3 == 1:
+            c["mode"] = MODES[(n // 3) % len(MODES)]
+    return cases + extra + sc
+
+
+# family S (scale sweeps): tables of up to 40 (thorough 80) columns carrying up to 24 (48) constraints of one kind, or of every kind at once;
+# the counts are swept completely, the constraints sit on the LAST columns (two-digit positions) in non-declaration order
+def scale_cases(deep):
+    out = []
+    maxn, maxm = (80, 48) if deep else (40, 24)
+    for kind in ("pk", "pkn", "uq", "uqu", "fk", "fku", "ck", "inline", "mix"):
+        for m in range(1, maxm + 1):
+            for n in sorted({max(m + 1, 4), max(m + 1, 12), maxn}):
+                out.append({"fam": "S", "kind": kind, "n": n, "m": m})
+    return out
+
+
+def scale_model(case):
+    """-> (ddl, expectation) for a scale case"""
+    n, m, kind = case["n"], case["m"], case["kind"]
+    cn = ["c%d" % i for i in range(n)]
+    E = {"cols": cn, "pk": [], "nn": set(), "uq": set(), "named_uq": [], "named_pk": None, "checks": [], "ichecks": {}, "refs": {}, "named_fk": []}
+    inl = {c: "" for c in cn}
+    tl = []
+    if kind in ("pk", "pkn", "mix"):
+        cols = [cn[n - 1 - j] for j in range(min(m, n - 1))]
+        E["pk"] = cols
+        if kind != "pk":
+            E["named_pk"] = "pk_n"
+        tl.append(("CONSTRAINT pk_n " if kind != "pk" else "") + "PRIMARY KEY (%s)" % ", ".join(cols))
+    if kind in ("uq", "mix"):
+        for j in range(m):
+            cols = [cn[(j * 3) % n]] if j % 2 == 0 else [cn[(n - 1 - j) % n], cn[(j + 1) % n]]
+            if len(set(cols)) < len(cols):
+                cols = cols[:1]
+            E["named_uq"].append({"columns": cols, "constraint_name": "u%d" % j})
+            if len(cols) == 1:
+                E["uq"].add(cols[0])
+            tl.append("CONSTRAINT u%d UNIQUE (%s)" % (j, ", ".join(cols)))
+    if kind in ("uqu",):
+        for j in range(min(m, n)):
+            E["uq"].add(cn[n - 1 - j])
+            tl.append("UNIQUE (%s)" % cn[n - 1 - j])
+    if kind in ("fk", "mix"):
+        for j in range(min(m, n)):
+            sch = "rs" if j % 2 else None
+            E["named_fk"].append(dict(constraint_name="f%d" % j, name=[cn[n - 1 - j]], columns=["x%d" % j], table="o%d" % j, schema=sch, on_delete="CASCADE" if j % 3 == 0 else None, on_update=None))
+            tl.append("CONSTRAINT f%d FOREIGN KEY (%s) REFERENCES %so%d (x%d)%s" % (j, cn[n - 1 - j], "rs." if sch else "", j, j, " ON DELETE CASCADE" if j % 3 == 0 else ""))
+    if kind in ("fku",):
+        for j in range(min(m, n)):
+            sch = "rs" if j % 2 else None
+            E["refs"][cn[n - 1 - j]] = dict(table="o%d" % j, schema=sch, column="x%d" % j, on_delete=None, on_update="RESTRICT" if j % 3 == 0 else None)
+            tl.append("FOREIGN KEY (%s) REFERENCES %so%d (x%d)%s" % (cn[n - 1 - j], "rs." if sch else "", j, j, " ON UPDATE RESTRICT" if j % 3 == 0 else ""))
+    if kind in ("ck", "mix"):
+        for j in range(m):
+            E["checks"].append(("k%d" % j, "%s > %d" % (cn[(n - 1 - j) % n], j)))
+            tl.append("CONSTRAINT k%d CHECK (%s > %d)" % (j, cn[(n - 1 - j) % n], j))
+    if kind == "inline":
+        for j in range(min(m, n)):
+            c = cn[n - 1 - j]
+            w = j % 5
+            if w == 0:
+                inl[c] = " UNIQUE"
+                E["uq"].add(c)
+            elif w == 1:
+                inl[c] = " REFERENCES o%d(x%d)" % (j, j)
+                E["refs"][c] = dict(table="o%d" % j, schema=None, column="x%d" % j, on_delete=None, on_update=None)
+            elif w == 2:
+                inl[c] = " CHECK (%s > %d)" % (c, j)
+                E["ichecks"][c] = "%s > %d" % (c, j)
+            elif w == 3:
+                inl[c] = " NOT NULL"
+                E["nn"].add(c)
+            elif j == 4:
+                inl[c] = " PRIMARY KEY"
+                E["pk"] = [c]
+    body = [c + " int" + inl[c] for c in cn] + tl
+    return "CREATE TABLE t (\n  " + ",\n  ".join(body) + "\n);", E
+
+
+def check_scale(case, r):
+    ddl, E = scale_model(case)
+    if not isinstance(r, list) or len(r) != 1 or not is_table(r[0]):
+        return [diff("result", "table-missing", "one table", short(r, 160))]
+    t, D = r[0], []
+    cols = {c["name"]: c for c in t["columns"]}
+    if [c["name"] for c in t["columns"]] != E["cols"]:
+        return [diff("columns", "columns-differ", E["cols"], [c["name"] for c in t["columns"]])]
+    if t.get("primary_key") != E["pk"]:
+        D.append(diff("primary_key", "pk-differs", E["pk"], t.get("primary_key")))
+    cons = t.get("constraints") or {}
+    for c in E["cols"]:
+        want_null = c not in E["pk"] and c not in E["nn"]
+        if cols[c].get("nullable") != want_null:
+            D.append(diff("column %s nullable" % c, "nullable-differs", want_null, cols[c].get("nullable")))
+        if bool(cols[c].get("unique")) != (c in E["uq"]) or not isinstance(cols[c].get("unique"), bool):
+            D.append(diff("column %s unique" % c, "unique-flag-missing" if c in E["uq"] else "unique-flag-spurious", c in E["uq"], cols[c].get("unique")))
+        ck = cols[c].get("check")
+        txt = ck.get("statement") if (isinstance(ck, dict) and "statement" in ck) else ck
+        if c in E["ichecks"]:
+            if ck_tokens(stmt_text(txt)) != ck_tokens(E["ichecks"][c]):
+                D.append(diff("column %s check" % c, "inline-check-differs", E["ichecks"][c], ck))
+        elif ck:
+            D.append(diff("column %s check" % c, "spurious-check", None, ck))
+        if c in E["refs"]:
+            w = E["refs"][c]
+            D.extend(_ref_check(cols, c, w["column"], w["schema"], w["on_delete"], w["on_update"], table=w["table"]))
+        elif cols[c].get("references") and not any(c in f["name"] for f in E["named_fk"]):
+            D.append(diff("column %s references" % c, "spurious-ref", None, cols[c].get("references")))
+    if E["named_pk"] and {"columns": E["pk"], "constraint_name": E["named_pk"]} not in cons.get("primary_keys", []):
+        D.append(diff("constraints.primary_keys", "named-pk-missing", E["pk"], cons.get("primary_keys")))
+    got_u = [u for u in cons.get("uniques", []) if u.get("constraint_name")]
+    if got_u != E["named_uq"]:
+        D.append(vdiff_("constraints.uniques", "named-uq-missing", E["named_uq"], got_u))
+    got_k = [(k.get("constraint_name"), ck_tokens(stmt_text(k.get("statement")))) for k in t.get("checks", []) if isinstance(k, dict)]
+    if got_k != [(a, ck_tokens(b)) for a, b in E["checks"]]:
+        D.append(vdiff_("checks", "checks-differ", [[a, ck_tokens(b)] for a, b in E["checks"]], [list(x) for x in got_k]))
+    got_f = []
+    for e in cons.get("references", []):
+        nm = e.get("name") if isinstance(e.get("name"), list) else [e.get("name")]
+        got_f.append(dict(constraint_name=e.get("constraint_name"), name=nm, columns=e.get("columns"), table=e.get("table"), schema=e.get("schema"),
+                          on_delete=e.get("on_delete"), on_update=e.get("on_update")))
+    if got_f != E["named_fk"]:
+        D.append(vdiff_("constraints.references", "fk-content-differs", E["named_fk"], got_f))
+    return D
+
+
+def vdiff_(where, sym, e, o):
+    from ..util import vdiff
+    return vdiff(where, sym, e, o)
 
 
 def build(case):
+    if case.get("fam") == "S":
+        return scale_model(case)[0]
     its = case["items"]
     parts = []
     for c in COLS:
@@ -268,6 +402,8 @@ def build(case):
 
 def features(case):
     f = []
+    if case.get("fam") == "S":
+        return f
     its = case["items"]
     if any(two_word(i) for i in its):
         f.append("fk-action:two-word")
@@ -403,12 +539,12 @@ def _fk_sym(want, got):
     return "fk-content-differs"
 
 
-def _ref_check(cols, c, rcol, sch, od, ou):
+def _ref_check(cols, c, rcol, sch, od, ou, table="o"):
     ref = cols[c].get("references") if c in cols else None
     if not ref:
         return [diff("column %s references" % c, "fk-ref-missing", "reference to o", ref)]
     got_col = ref.get("column") if "column" in ref else (ref.get("columns") or [None])[0]
-    want = dict(table="o", schema=sch, column=rcol, on_delete=od, on_update=ou)
+    want = dict(table=table, schema=sch, column=rcol, on_delete=od, on_update=ou)
     got = dict(table=ref.get("table"), schema=ref.get("schema"), column=got_col, on_delete=ref.get("on_delete"), on_update=ref.get("on_update"))
     if got != want:
         return [diff("column %s references" % c, _fk_sym(want, got), want, got)]
@@ -420,11 +556,15 @@ def evaluate(case):
     r = run_ddl(ddl, None, {"output_mode": case.get("mode", "sql")})
     if r[0] != "ok":
         return {"diffs": [diff("run", "raises", "result", r[1:3])], "outcome": "exc"}
+    if case.get("fam") == "S":
+        return {"diffs": check_scale(case, r[1]), "nontrivial": True, "outcome": "S:" + case["kind"]}
     D = check(case, r[1])
     return {"diffs": D, "nontrivial": True, "outcome": json.dumps(sorted({i[0] for i in case["items"]}))}
 
 
 def describe(case):
+    if case.get("fam") == "S":
+        return {"ddl": build(case), "scale": case}
     return {"ddl": build(case), "items": case["items"], "pos": case["pos"], "output_mode": case.get("mode", "sql")}
 
 
